@@ -355,9 +355,14 @@ func (l *layoutContext) StrutLayoutsCache() map[text.StrutLayoutKey][2]pr.Float 
 }
 
 func (l *layoutContext) overflowsPage(bottomSpace, positionY pr.Float) bool {
+	return overflows(l.pageBottom-bottomSpace, positionY)
+}
+
+// overflows returns true if [positionY] is below [bottom]
+func overflows(bottom, positionY pr.Float) bool {
 	// Use a small fudge factor to avoid floating numbers errors.
 	// The 1e-9 value comes from PEP 485.
-	return positionY > (l.pageBottom-bottomSpace)*(1+1e-9)
+	return positionY > bottom*(1+1e-9)
 }
 
 func (l *layoutContext) createBlockFormattingContext() {
